@@ -233,6 +233,24 @@ def check_drop_frame_labels(ctx):
       n_eval += 1
       if back != n:
         wrong_t.append(f"label {want} at {rate}: to_frames gives {back}, SMPTE frame {n}")
+  # non-drop rates: plain positional labels, hours not wrapped (times of 24 h and more keep counting)
+  wrong_n = []
+  for rate in (F(24), F(25), F(30), F(50), F(60)):
+    N = int(rate)
+    for n in (0, 1, N - 1, N, 60 * N - 1, 60 * N, 3600 * N - 1, 3600 * N, 24 * 3600 * N - 1, 24 * 3600 * N, 25 * 3600 * N + 61 * N + 7, 99 * 3600 * N + 59 * 60 * N + 59 * N + N - 1):
+      want = (n // (3600 * N), (n // (60 * N)) % 60, (n // N) % 60, n % N)
+      env = {ff.params[0]: n, ff.params[1]: rate, f"{ff.params[1]}.denominator": 1, f"{ff.params[1]}.numerator": N}
+      try:
+        ce = _CallingConstEval(ix, fe, ff, 0, None)
+        fe._block(ce, ff, body, env)
+        got = tuple(ce.ev(ff.module, a, ff.cls, env) for a in ret.value.args[:4])
+      except (NotConst, Raised, TypeError) as e:
+        raise AnalysisError(f"from_frames leaves the evaluable subset at n={n}, rate={rate} ({e})")
+      n_eval += 1
+      if got != want:
+        wrong_n.append(f"frame {n} at {rate} fps: label {got}, expected {want}")
+  ctx.check(not wrong_n, "FIN-dropframe", f"{ff.qualname}|non-drop labels are positional, hours are not wrapped", ctx.where(ff.module, ff.node), "60 frame counts at 24 / 25 / 30 / 50 / 60 fps up to 99 h",
+            "from_frames: " + "; ".join(wrong_n[:3]))
   ctx.extra["drop_frame_evaluations"] = n_eval
   ctx.check(not wrong_f, "FIN-dropframe", f"{ff.qualname}|SMPTE drop-frame labels at minute boundaries", ctx.where(ff.module, ff.node), f"{n_eval // 2} frame counts agree with SMPTE ST 12-1",
             "from_frames: " + "; ".join(wrong_f[:3]) + (f" (+{len(wrong_f) - 3} more)" if len(wrong_f) > 3 else ""))
